@@ -465,6 +465,8 @@ impl<'a> Interp<'a> {
                     }
                 }
                 self.m.last_cron = epoch;
+                // consensus runs the tick as the last thing of an epoch: no message follows it in the same epoch
+                self.f.w.v.set_epoch(epoch + 1);
             }
         }
         if self.abandon {
